@@ -143,8 +143,47 @@ def battery():
         return dg(r["html"], deps_sig(r["dependencies"]), css(opacity=1), css(opacity=1.0), css(z=True),
                   str(TagList(1, 1.0, True, 0, -0.0, 0.0)))
 
-    return [("escapes", escapes), ("version_spelling_a", version_spelling_a), ("version_spelling_b", version_spelling_b),
-            ("text_document_b", text_document_b), ("shared_page", shared_page), ("many_deps", many_deps), ("dup_head_content", dup_head_content), ("text_document", text_document),
+    class Adapter:
+        """wraps any object; exposes tagify() only when the wrapped object has one (set per INSTANCE)"""
+
+        def __init__(self, obj):
+            self.obj = obj
+            if hasattr(obj, "tagify"):
+                self.tagify = obj.tagify
+
+        def _repr_html_(self):
+            return "<adapter/>"
+
+    class Plain:
+        def _repr_html_(self):
+            return "<plain/>"
+
+    def adapter_with_tagify():
+        x = tags.div("a", Adapter(tags.span("inner", dep("ad1"))), "z")
+        r = x.render()
+        return dg(r["html"], deps_sig(r["dependencies"]))
+
+    def adapter_without_tagify():
+        x = tags.div("a", Adapter(Plain()), "z")
+        r = x.render()
+        return dg(r["html"], deps_sig(r["dependencies"]), x.get_html_string())
+
+    def json_mode():
+        import htmltools
+        x = TagList(tags.div("j", dep("jm3"), dep("jm1")), dep("jm2"), tags.p(dep("jm4"), dep("jm5")))
+        assert htmltools.html_dependency_render_mode == "invisible"
+        htmltools.html_dependency_render_mode = "json"
+        try:
+            s = str(x)
+            s2 = repr(tags.div(dep("k2"), dep("k1")))
+        finally:
+            htmltools.html_dependency_render_mode = "invisible"
+        return dg(s, s2, str(x))
+
+    # the first five/seven items are the ones permuted: pairs whose relative order matters
+    return [("version_spelling_a", version_spelling_a), ("adapter_with_tagify", adapter_with_tagify),
+            ("version_spelling_b", version_spelling_b), ("adapter_without_tagify", adapter_without_tagify),
+            ("escapes", escapes), ("json_mode", json_mode), ("text_document_b", text_document_b), ("shared_page", shared_page), ("many_deps", many_deps), ("dup_head_content", dup_head_content), ("text_document", text_document),
             ("jsx_component", jsx_component), ("attr_merges", attr_merges), ("resolution", resolution)]
 
 
@@ -166,6 +205,10 @@ HC_PAYLOADS = [
     ("text-leading-space", lambda t, H: [" a"]),
     ("space-only", lambda t, H: [" "]),
     ("nbsp-only", lambda t, H: ["\u00a0"]),
+    ("e-acute-composed", lambda t, H: [t.title("caf\u00e9")]),
+    ("e-acute-decomposed", lambda t, H: [t.title("cafe\u0301")]),
+    ("angstrom-sign", lambda t, H: ["\u212b"]),
+    ("a-ring", lambda t, H: ["\u00c5"]),
 ]
 
 
